@@ -197,6 +197,8 @@ fn spawn_session(exe: &Path, o: &DriveOpts, idx: u64) -> std::io::Result<Child> 
                 .env("DEXSIM_CLOCK_REPORT", o.out.join("sessions").join(format!("{idx}.clock.json")));
             c.arg("--timeout").arg("315360000");
         }
+        // ... and wear a host mask (argv[0], arguments and environment of a real host)
+        crate::plan::apply_host_mask(&mut c, crate::session::host_of(idx));
         // the same sessions also run with stdout and stderr that accept no byte (/dev/full): an
         // expander that prints (a debugging `eprintln!`) must not turn that into a panic
         if let Ok(full) = std::fs::OpenOptions::new().write(true).open("/dev/full") {
@@ -734,6 +736,7 @@ fn minimise_and_write(
         reqs: plan.reqs.clone(),
         steps: plan.steps[..=v.step.min(plan.steps.len() - 1)].to_vec(),
         clock: plan.clock.clone(),
+        host: plan.host,
     };
     prefix.compact();
     let mut rf = ReplayFile {
@@ -755,6 +758,7 @@ fn minimise_and_write(
         output_b: v.text_b.clone(),
         notes: vec![],
     };
+    let mut side_b: (Option<crate::plan::ClockWarp>, Option<u8>) = (None, None);
     if class == "diverge-across-processes" {
         // two processes are needed: this session's prefix and the other session's prefix
         if let (Some(s1), Some(step1)) = (v.earlier_session, v.earlier_step) {
@@ -763,18 +767,26 @@ fn minimise_and_write(
                 reqs: p1.reqs.clone(),
                 steps: p1.steps[..=step1.min(p1.steps.len() - 1)].to_vec(),
                 clock: p1.clock.clone(),
+                host: p1.host,
             };
             b.compact();
+            side_b = (p1.clock.clone(), p1.host);
             rf.plan_b = Some(b);
         }
         rf.notes.push("cross-process divergence: `replay` executes `plan` and `plan_b` in two fresh processes and compares the outputs of their last steps".into());
         // cheap minimisation: the last request alone in both processes, if that still differs
-        let single = Plan::single(v.req.clone());
+        // (each in the situation - clock seam, host mask - of its own session)
+        let mut single_a = Plan::single(v.req.clone());
+        single_a.clock = plan.clock.clone();
+        single_a.host = plan.host;
+        let mut single_b = Plan::single(v.req.clone());
+        single_b.clock = side_b.0.clone();
+        single_b.host = side_b.1;
         let mut ctx = crate::minimise::Ctx::new(&o.out.join("tmp"), 10);
-        if let (Some(a), Some(b)) = (ctx.run_child(&single, 30), ctx.run_child(&single, 30)) {
+        if let (Some(a), Some(b)) = (ctx.run_child(&single_a, 30), ctx.run_child(&single_b, 30)) {
             if a.step_log != b.step_log {
-                rf.plan = single.clone();
-                rf.plan_b = Some(single);
+                rf.plan = single_a;
+                rf.plan_b = Some(single_b);
             }
         }
     }
